@@ -1061,10 +1061,13 @@ class TorchBackendProvider(BackendProvider):
             r = self._ir_to_source(right)
             if l is None or r is None:
                 return None
-            py_cmp = {'=': '==', '>': '>', '<': '<'}.get(op)
+            # ((l==r)*1) loses the structure of nested operands ([1 [2]]=0 gave
+            # [0 0], not [0 [0]]) and accepts operands of different length that
+            # the verb rejects: call the verb itself.
+            py_cmp = {'=': '_kg_equal', '>': '_kg_more', '<': '_kg_less'}.get(op)
             if py_cmp is None:
                 return None
-            return f'(({l}{py_cmp}{r})*1)'
+            return f'{py_cmp}({l},{r})'
 
         if node_type == 'negate':
             child = self._ir_to_source(ir[1])
